@@ -702,7 +702,10 @@ def c03(project, obs, view=None, prefix="C03"):
         else:
             need = overall
         if not (names & need):
-            out.append(F("%s/unneeded-fixture-evaluated/%s" % (prefix, fx["scope"]), "%s evaluated at %s but no counted test of that instance needs it" % (tok, loc)))
+            # (the open finding N3 only exists under --force-disabled: the signature says so, the same symptom
+            # without the option is a different violation)
+            how = "/force-disabled" if project.get("force_disabled") else ""
+            out.append(F("%s/unneeded-fixture-evaluated/%s%s" % (prefix, fx["scope"], how), "%s evaluated at %s but no counted test of that instance needs it" % (tok, loc)))
     return _dedupe(out)
 
 
